@@ -223,6 +223,28 @@ def check(repo: Repo, run: Run) -> None:
                         shown_unguarded = True
         run.ob("R1", M, "MachVmfault.__str__", "pid/protection rendered only when present", not shown_unguarded,
                "the rendering uses pid/protection on an alternative where their presence is not established", nontrivial=False)
+        # ... and whenever present: a pid of 0 (the kernel task) and an empty protection list (VM_PROT_NONE spelled out by a
+        # decoder that lists the bits) are values, not absences.  The alternative that shows them is chosen by comparisons
+        # with None; a choice made on the truth value of the field hides the zero / empty value
+        by_truth = []
+        for ch, flat in render.variants(d.segs):
+            if not any(s[0] == "hole" and sym.contains(s[1], T("attr", (PARSER, "parse_event_list"))) for s in flat):
+                continue
+            for c, _pol in ch:
+                stack = [c]
+                while stack:
+                    x = stack.pop()
+                    if x.op == "bool":
+                        stack.extend(x.a[1])
+                    elif x.op == "not":
+                        stack.append(x.a[0])
+                    elif x.op in ("ite", "attr") and sym.contains(x, T("attr", (PARSER, "parse_event_list"))):
+                        by_truth.append(next((y.a[1] for y in sym.walk(x) if y.op == "attr" and isinstance(y.a[1], str)
+                                              and y.a[0].op == "call" and y.a[0].a[0] == T("attr", (PARSER, "parse_event_list"))), "?"))
+        run.ob("R1", M, "MachVmfault.__str__", "pid/protection rendered whenever present", not by_truth,
+               "" if not by_truth else "whether pid/protection are shown is decided by the truth value of the field taken from the nested "
+               f"record (.{by_truth[0]}), not by a comparison with None: a fault of pid 0 or with no protection bit loses both",
+               nontrivial=False, witness="a fault window whose real-fault record carries pid 0")
 
     # ------------------------------------------------------------------ R2 launch
     e = entry(D, "DBG_DYLD_TIMING_LAUNCH_EXECUTABLE")
